@@ -23,7 +23,7 @@ import time
 import tomllib
 from concurrent.futures import ThreadPoolExecutor
 
-REPO = "/repo"
+REPO = os.environ.get("VERIF_REPO", "/repo")  # overridden only by tools/isolated_thorough.sh (background runs on a snapshot)
 ROOT = os.path.dirname(os.path.abspath(__file__))
 WORK = os.path.join(ROOT, "work")
 CRATES = ["nexrad-model", "nexrad-decode", "nexrad", "nexrad-data"]
